@@ -123,7 +123,7 @@ def strip_hygiene(S, N):
                 ctx.witness('multi-byte char kept', b_and(z3.UGT(s.chars[0], 0xffff), b_not(is_ws(s.chars[0]))))
 
         ob, ex = S.explore('strip.hygiene[n=%d]' % n, 'strip_trailing_whitespace(s): non-empty, ends with LF, no line ends with White_Space; for every s of %d code points' % n,
-                           body, bounds=dict(code_points=n, alphabet='all Unicode scalar values'))
+                           body, bounds=dict(code_points=n, alphabet='all Unicode scalar values'), parallel=True)
         if n >= 3:
             S.require_witness(ob, ['non-ascii blank before LF', 'CR LF', 'blank at end without LF', 'multi-byte char kept'])
         for lab, mdl, info in ex.violations:
